@@ -407,6 +407,11 @@ def parse_single_name_into_parts(name, strict=True):
                 controlseq = False
                 case = _foreign_character_case(controlseq_name, case)
             if not level:
+                if specialchar and case == -1:
+                    # BibTeX decides the case at the first special character:
+                    #   without a letter in it, the word is no lower-case (von) word,
+                    #   whatever follows the special character.
+                    case = 1
                 specialchar = False
             word.append(char)
             continue
